@@ -327,6 +327,14 @@ func (w *Worker) Case(name string, params any, body func(c *Case)) {
 		case <-time.After(w.CaseTimeout):
 			buf := make([]byte, 1<<20)
 			buf = buf[:runtime.Stack(buf, true)]
+			c.mu.Lock()
+			viol := append([]Violation(nil), c.viol...)
+			c.mu.Unlock()
+			if len(viol) != 0 {
+				// the case recorded a violation and then got stuck (e.g. a panic left a library mutex locked)
+				viol = append(viol, Violation{Kind: "hang", Sig: "stuck-after-violation", Detail: "the case did not finish after the violation above (watchdog)"})
+				w.emit(map[string]any{"type": "violation", "case": idx, "name": name, "params": params, "violations": viol, "events": tail(c.Events(), 400)})
+			}
 			w.emit(map[string]any{"type": "stuck", "case": idx, "name": name, "params": params, "events": tail(c.Events(), 200)})
 			fmt.Fprintf(os.Stderr, "WATCHDOG case %d %s\n%s\n", idx, name, buf)
 			os.Exit(4)
